@@ -48,7 +48,7 @@ func C13() *runner.Property {
 			r := rng.New(uint64(seed) ^ 0xC13)
 			n := 40
 			if tier == "thorough" {
-				n = 1500
+				n = 12000
 			}
 			var cs []runner.Case
 			for i := 0; i < n; i++ {
